@@ -3,12 +3,11 @@
 package harness
 
 import (
+	"context"
 	"fmt"
-	"math/big"
 	"math/rand"
 	"sort"
 	"strconv"
-	"strings"
 	"testing"
 	"time"
 
@@ -30,6 +29,9 @@ import (
 	"github.com/cosmos/cosmos-sdk/x/authz"
 	banktypes "github.com/cosmos/cosmos-sdk/x/bank/types"
 	distrtypes "github.com/cosmos/cosmos-sdk/x/distribution/types"
+	govtypes "github.com/cosmos/cosmos-sdk/x/gov/types"
+	govv1 "github.com/cosmos/cosmos-sdk/x/gov/types/v1"
+	minttypes "github.com/cosmos/cosmos-sdk/x/mint/types"
 
 	simapp "github.com/provenance-io/provenance/app"
 	"github.com/provenance-io/provenance/internal/pioconfig"
@@ -42,6 +44,8 @@ import (
 const (
 	c08Chain = "verif-1" // not a chain id that isTestContext treats specially: all fee checks are live
 	c08NAcc  = 6
+	c08Gov   = c08NAcc + 1 // id of the gov module account in the Coq terms
+	c08Bond  = "stake"     // bond denom: deposits and nothing else; not observed
 )
 
 // denoms and their ids in the Coq terms
@@ -71,7 +75,13 @@ const (
 	// x/exchange payments: their handlers record a flat fee on the fee gas meter themselves
 	c08PayCreate = 4
 	c08PayAccept = 5
+	// x/gov messages have ids >= 100 (TxFees.gov_mtype): transactions made of them only are exempt from the gas limit
+	c08Submit = 100
 )
+
+// kinds whose fee schedule entries are observed and compared
+var c08Kinds = []int{c08Send, c08Exec, c08Assess, c08PayCreate, c08PayAccept, c08Submit}
+
 
 var c08TypeURL = map[int]string{
 	c08Send:   sdk.MsgTypeURL(&banktypes.MsgSend{}),
@@ -79,6 +89,7 @@ var c08TypeURL = map[int]string{
 	c08Assess: sdk.MsgTypeURL(&msgfeestypes.MsgAssessCustomMsgFeeRequest{}),
 	c08PayCreate: sdk.MsgTypeURL(&exchange.MsgCreatePaymentRequest{}),
 	c08PayAccept: sdk.MsgTypeURL(&exchange.MsgAcceptPaymentRequest{}),
+	c08Submit:    sdk.MsgTypeURL(&govv1.MsgSubmitProposal{}),
 }
 
 type c08Acct struct {
@@ -95,6 +106,9 @@ type c08Net struct {
 	sink   sdk.AccAddress
 	feeCol sdk.AccAddress
 	distr  sdk.AccAddress
+	gov    sdk.AccAddress
+	maxGas int64 // consensus param Block.MaxGas in force
+	accNum [c08NAcc]uint64
 	// message authorizations (authz) granted at start: authzOK[granter][grantee]
 	authzOK [c08NAcc][c08NAcc]bool
 	// open x/exchange payments as the harness knows them: key = source id / external id
@@ -111,7 +125,9 @@ type c08Payment struct {
 func (p c08Payment) key() string { return fmt.Sprintf("%d/%s", p.source, p.extID) }
 
 func c08NewNet(t *testing.T) *c08Net {
-	pioconfig.SetProvenanceConfig(sdk.DefaultBondDenom, 1)
+	// the msgfees keeper is constructed with this fee denom (its conversion denom default); staking and
+	// mint keep using the bond denom "stake", so no block inflation ever touches the observed denoms
+	pioconfig.SetProvenanceConfig(c08Denoms[0], 1)
 	n := &c08Net{t: t, payments: map[string]c08Payment{}}
 	for i := 0; i < c08NAcc; i++ {
 		priv := secp256k1.GenPrivKeyFromSecret([]byte(fmt.Sprintf("verif-c08-key-%d", i)))
@@ -124,7 +140,7 @@ func c08NewNet(t *testing.T) *c08Net {
 	for i, a := range n.accts {
 		gen = append(gen, authtypes.NewBaseAccount(a.addr, a.priv.PubKey(), uint64(i), 0))
 		bals = append(bals, banktypes.Balance{Address: a.addr.String(), Coins: sdk.NewCoins(
-			sdk.NewInt64Coin(c08Denoms[0], 1_000_000_000_000_000), sdk.NewInt64Coin(c08Denoms[1], 1_000_000_000), sdk.NewInt64Coin(c08Denoms[3], 1_000_000_000), sdk.NewInt64Coin(c08Denoms[2], 1_000_000_000))})
+			sdk.NewInt64Coin(c08Denoms[0], 1_000_000_000_000_000), sdk.NewInt64Coin(c08Denoms[1], 1_000_000_000), sdk.NewInt64Coin(c08Denoms[3], 1_000_000_000), sdk.NewInt64Coin(c08Denoms[2], 1_000_000_000), sdk.NewInt64Coin(c08Bond, 1_000_000_000_000))})
 	}
 	n.app = simapp.SetupWithGenesisAccounts(t, c08Chain, gen, bals...)
 	n.height = n.app.LastBlockHeight() + 1 // the block opened by the setup
@@ -132,7 +148,13 @@ func c08NewNet(t *testing.T) *c08Net {
 	n.sink = addrN(808)
 	n.feeCol = authtypes.NewModuleAddress(authtypes.FeeCollectorName)
 	n.distr = authtypes.NewModuleAddress(distrtypes.ModuleName)
+	n.gov = authtypes.NewModuleAddress(govtypes.ModuleName)
+	n.maxGas = simapp.DefaultConsensusParams.Block.MaxGas
 	ctx := n.ctx()
+	n.setupGov(ctx)
+	for i, a := range n.accts {
+		n.accNum[i] = n.app.AccountKeeper.GetAccount(ctx, a.addr).GetAccountNumber()
+	}
 	for g := 0; g < c08NAcc; g++ {
 		for p := 0; p < c08NAcc; p++ {
 			if g != p && (g*7+p*3)%4 != 0 {
@@ -195,12 +217,34 @@ type c08Allow struct {
 }
 
 type c08State struct {
-	bal   [c08NAcc + 1][c08NDen]sdkmath.Int // account id (0 = fee collector + distribution) x denom
+	bal   [c08NAcc + 2][c08NDen]sdkmath.Int // account id (0 = fee collector + distribution, c08Gov = gov module account) x denom
+	cfg   *c08Config                        // fee schedule and params as read from the store
 	seq   [c08NAcc]uint64
 	allow [c08NAcc][c08NAcc]c08Allow // [granter][grantee]
 }
 
-func (n *c08Net) addrOf(id int) sdk.AccAddress { return n.accts[id-1].addr }
+func (n *c08Net) addrOf(id int) sdk.AccAddress {
+	switch id {
+	case 0:
+		return n.feeCol
+	case c08Gov:
+		return n.gov
+	}
+	return n.accts[id-1].addr
+}
+
+// idOf is the inverse of addrOf on bech32 strings (0 when the address is none of the universe's).
+func (n *c08Net) idOf(bech string) int {
+	for i, a := range n.accts {
+		if a.addr.String() == bech {
+			return i + 1
+		}
+	}
+	if bech == n.gov.String() {
+		return c08Gov
+	}
+	return 0
+}
 
 func (n *c08Net) observe(ctx sdk.Context) *c08State {
 	s := &c08State{}
@@ -209,7 +253,9 @@ func (n *c08Net) observe(ctx sdk.Context) *c08State {
 		for i, a := range n.accts {
 			s.bal[i+1][d] = n.app.BankKeeper.GetBalance(ctx, a.addr, dn).Amount
 		}
+		s.bal[c08Gov][d] = n.app.BankKeeper.GetBalance(ctx, n.gov, dn).Amount
 	}
+	s.cfg = n.observeCfg(ctx)
 	for i, a := range n.accts {
 		s.seq[i] = n.app.AccountKeeper.GetAccount(ctx, a.addr).GetSequence()
 		for j, b := range n.accts {
@@ -254,7 +300,7 @@ func c08AllowTerm(a c08Allow) string {
 
 func (s *c08State) balTerm() string {
 	var it []string
-	for a := 0; a <= c08NAcc; a++ {
+	for a := 0; a <= c08Gov; a++ {
 		for d := 0; d < c08NDen; d++ {
 			if !s.bal[a][d].IsZero() {
 				it = append(it, fmt.Sprintf("(%s, %s, %s)", c08N(a), c08N(d+1), zInt(s.bal[a][d])))
@@ -289,6 +335,14 @@ func (n *c08Net) setBal(ctx sdk.Context, id int, denom string, v sdkmath.Int) {
 	addr := n.addrOf(id)
 	cur := n.app.BankKeeper.GetBalance(ctx, addr, denom).Amount
 	switch {
+	case v.GT(cur) && id == c08Gov:
+		add := sdk.NewCoins(sdk.NewCoin(denom, v.Sub(cur)))
+		if err := n.app.BankKeeper.MintCoins(ctx, minttypes.ModuleName, add); err != nil {
+			n.t.Fatalf("mint: %v", err)
+		}
+		if err := n.app.BankKeeper.SendCoinsFromModuleToModule(ctx, minttypes.ModuleName, govtypes.ModuleName, add); err != nil {
+			n.t.Fatalf("fund gov: %v", err)
+		}
 	case v.GT(cur):
 		fund(n.t, n.app, ctx, addr, sdk.NewCoins(sdk.NewCoin(denom, v.Sub(cur))))
 	case v.LT(cur):
@@ -330,6 +384,7 @@ type c08Config struct {
 	schedule []c08FeeEntry
 	floor    sdk.Coin
 	perMil   uint64
+	conv     string // params.ConversionFeeDenom
 	payCreate, payAccept sdk.Coins // exchange params FeeCreatePaymentFlat / FeeAcceptPaymentFlat (empty = none); not part of the Coq config: the fee appears on the routed message
 	shared   int // when > 0: the recipient that several fee sources of this configuration name (not part of the Coq term)
 }
@@ -343,7 +398,31 @@ func (c *c08Config) term() string {
 		}
 		it = append(it, fmt.Sprintf("(Fe %s %s %s %d)", c08N(e.kind), c08Coin(e.coin), rc, e.bips))
 	}
-	return fmt.Sprintf("(Cfg %s %s %s %s %d)", coqList(it), c08Coin(c.floor), c08N(1), c08N(c08UsdID), c.perMil)
+	return fmt.Sprintf("(Cfg %s %s %s %s %d)", coqList(it), c08Coin(c.floor), c08N(c08DenomID(c.conv)), c08N(c08UsdID), c.perMil)
+}
+
+// observeCfg reads the fee schedule (store iteration, the committed content) and the params.
+func (n *c08Net) observeCfg(ctx sdk.Context) *c08Config {
+	c := &c08Config{}
+	byURL := map[string]msgfeestypes.MsgFee{}
+	if err := n.app.MsgFeesKeeper.IterateMsgFees(ctx, func(f msgfeestypes.MsgFee) bool {
+		byURL[f.MsgTypeUrl] = f
+		return false
+	}); err != nil {
+		n.t.Fatalf("IterateMsgFees: %v", err)
+	}
+	for _, k := range c08Kinds {
+		if f, ok := byURL[c08TypeURL[k]]; ok {
+			c.schedule = append(c.schedule, c08FeeEntry{kind: k, coin: f.AdditionalFee, recipient: n.idOf(f.Recipient), bips: f.RecipientBasisPoints})
+		}
+	}
+	p := n.app.MsgFeesKeeper.GetParams(ctx)
+	c.floor, c.perMil, c.conv = p.FloorGasPrice, p.NhashPerUsdMil, p.ConversionFeeDenom
+	ep := n.app.ExchangeKeeper.GetParams(ctx)
+	if ep != nil {
+		c.payCreate, c.payAccept = ep.FeeCreatePaymentFlat, ep.FeeAcceptPaymentFlat
+	}
+	return c
 }
 
 func (n *c08Net) applyConfig(ctx sdk.Context, c *c08Config) {
@@ -359,7 +438,7 @@ func (n *c08Net) applyConfig(ctx sdk.Context, c *c08Config) {
 			n.t.Fatalf("SetMsgFee: %v", err)
 		}
 	}
-	n.app.MsgFeesKeeper.SetParams(ctx, msgfeestypes.Params{FloorGasPrice: c.floor, NhashPerUsdMil: c.perMil, ConversionFeeDenom: c08Denoms[0]})
+	n.app.MsgFeesKeeper.SetParams(ctx, msgfeestypes.Params{FloorGasPrice: c.floor, NhashPerUsdMil: c.perMil, ConversionFeeDenom: c.conv})
 	ep := exchange.DefaultParams()
 	ep.FeeCreatePaymentFlat = c.payCreate
 	ep.FeeAcceptPaymentFlat = c.payAccept
@@ -381,6 +460,8 @@ func c08GenConfig(r *rand.Rand) *c08Config {
 		c.floor = sdk.NewInt64Coin(c08Denoms[0], int64(1+r.Intn(5)))
 	}
 	c.perMil = []uint64{1, 7, 25, 1000}[r.Intn(4)]
+	// the conversion denom is a governance param: mostly the keeper's construction-time default, often not
+	c.conv = []string{c08Denoms[0], c08Denoms[0], c08Denoms[0], c08Denoms[1], c08Denoms[1], c08Denoms[2]}[r.Intn(6)]
 	payFee := func() sdk.Coins {
 		switch r.Intn(8) {
 		case 0:
@@ -401,8 +482,8 @@ func c08GenConfig(r *rand.Rand) *c08Config {
 	if c.shared > 0 {
 		present = 80
 	}
-	for _, k := range []int{c08Send, c08Exec, c08Assess, c08PayCreate} {
-		if r.Intn(100) >= present || (k == c08PayCreate && r.Intn(2) == 0) {
+	for _, k := range []int{c08Send, c08Exec, c08Assess, c08PayCreate, c08Submit} {
+		if r.Intn(100) >= present || ((k == c08PayCreate || k == c08Submit) && r.Intn(2) == 0) {
 			continue
 		}
 		e := c08FeeEntry{kind: k}
@@ -446,6 +527,8 @@ type c08Msg struct {
 	pay    c08Payment
 	payOK  bool
 	post   sdk.Coins
+	// gov MsgSubmitProposal: the proposal's messages
+	gov []c08GovItem
 }
 
 func (n *c08Net) sdkMsg(m c08Msg) sdk.Msg {
@@ -459,6 +542,8 @@ func (n *c08Net) sdkMsg(m c08Msg) sdk.Msg {
 			return &exchange.MsgCreatePaymentRequest{Payment: pm}
 		}
 		return &exchange.MsgAcceptPaymentRequest{Payment: pm}
+	case c08Submit:
+		return n.submitMsg(m.from, m.gov)
 	case c08Exec:
 		var in []sdk.Msg
 		for _, x := range m.inner {
@@ -496,6 +581,9 @@ func (n *c08Net) routedTerms(m c08Msg, grantee int) []string {
 			}
 		}
 		return []string{fmt.Sprintf("(Rt %s None (AExt %s %s) %s)", c08N(m.kind), coqBool(m.payOK), coqList(mv), c08Coins(m.post))}
+	case c08Submit:
+		// the deposit is in the bond denom (not observed); the proposal's messages are not routed now
+		return []string{fmt.Sprintf("(Rt %s None (AExt true []) [])", c08N(c08Submit))}
 	case c08Send:
 		return []string{fmt.Sprintf("(Rt %s None (ASend %s %s %s) [])", c08N(c08Send), c08N(m.from), c08N(m.to), c08Coins(m.coins))}
 	case c08Exec:
@@ -538,8 +626,8 @@ func c08Required(c *c08Config, msgs []c08Msg, nested bool) sdk.Coins {
 		if m.kind == c08Assess && m.amount.IsPositive() {
 			switch m.amount.Denom {
 			case msgfeestypes.UsdDenom:
-				req = req.Add(sdk.NewCoin(c08Denoms[0], m.amount.Amount.Mul(sdkmath.NewIntFromUint64(c.perMil))))
-			case c08Denoms[0]:
+				req = req.Add(sdk.NewCoin(c.conv, m.amount.Amount.Mul(sdkmath.NewIntFromUint64(c.perMil))))
+			case c.conv:
 				req = req.Add(m.amount)
 			}
 		}
@@ -573,7 +661,7 @@ func c08SameRecipientSources(c *c08Config, msgs []c08Msg) int {
 				add(e.recipient, fmt.Sprintf("type%d", e.kind))
 			}
 		}
-		if m.kind == c08Assess && m.recipient > 0 && m.bips != "0" && m.amount.Denom != c08Denoms[1] {
+		if m.kind == c08Assess && m.recipient > 0 && m.bips != "0" && (m.amount.Denom == c.conv || m.amount.Denom == msgfeestypes.UsdDenom) {
 			add(m.recipient, "custom")
 		}
 		for _, x := range m.inner {
@@ -599,10 +687,17 @@ type c08Tx struct {
 	granter int // 0 = none
 	signers []int
 	msgs    []c08Msg
-	sigOK   bool
+	sigOK   bool // false: the first signer signs for a sequence two ahead
+	forced  bool // put into the block without asking CheckTx
+	// filled in when the transaction is signed / run
+	sigSeq              []uint64
+	gasIn               string // Coq gas_input term; "" = from the result codes
+	admitted, ok        bool
+	chkCode, code       uint32
+	gasUsed, chkGasUsed int64
 }
 
-func (n *c08Net) sign(ctx sdk.Context, t *c08Tx, seqs [c08NAcc]uint64) ([]byte, error) {
+func (n *c08Net) sign(t *c08Tx, seqs [c08NAcc]uint64) ([]byte, error) {
 	cfg := n.app.GetEncodingConfig().TxConfig
 	b := cfg.NewTxBuilder()
 	var msgs []sdk.Msg
@@ -621,13 +716,14 @@ func (n *c08Net) sign(ctx sdk.Context, t *c08Tx, seqs [c08NAcc]uint64) ([]byte, 
 	sigs := make([]signing.SignatureV2, len(t.signers))
 	nums := make([]uint64, len(t.signers))
 	sq := make([]uint64, len(t.signers))
+	t.sigSeq = nil
 	for i, s := range t.signers {
-		acc := n.app.AccountKeeper.GetAccount(ctx, n.addrOf(s))
-		nums[i] = acc.GetAccountNumber()
+		nums[i] = n.accNum[s-1]
 		sq[i] = seqs[s-1]
 		if !t.sigOK && i == 0 {
 			sq[i] += 2 // signed for a sequence the account is not at
 		}
+		t.sigSeq = append(t.sigSeq, sq[i])
 		sigs[i] = signing.SignatureV2{PubKey: n.accts[s-1].priv.PubKey(), Data: &signing.SingleSignatureData{SignMode: mode}, Sequence: sq[i]}
 	}
 	if err := b.SetSignatures(sigs...); err != nil {
@@ -635,7 +731,7 @@ func (n *c08Net) sign(ctx sdk.Context, t *c08Tx, seqs [c08NAcc]uint64) ([]byte, 
 	}
 	for i, s := range t.signers {
 		sd := authsigning.SignerData{Address: n.addrOf(s).String(), ChainID: c08Chain, AccountNumber: nums[i], Sequence: sq[i], PubKey: n.accts[s-1].priv.PubKey()}
-		sig, err := tx.SignWithPrivKey(ctx, mode, sd, b, n.accts[s-1].priv, cfg, sq[i])
+		sig, err := tx.SignWithPrivKey(context.Background(), mode, sd, b, n.accts[s-1].priv, cfg, sq[i])
 		if err != nil {
 			return nil, err
 		}
@@ -645,6 +741,30 @@ func (n *c08Net) sign(ctx sdk.Context, t *c08Tx, seqs [c08NAcc]uint64) ([]byte, 
 		return nil, err
 	}
 	return cfg.TxEncoder()(b.GetTx())
+}
+
+// gasInput is the Coq gas_input of the transaction: measured consumption when it was calibrated,
+// else where the node's result codes (11 = out of gas) say it ran out of gas.
+func (t *c08Tx) gasInput() string {
+	if t.gasIn != "" {
+		return t.gasIn
+	}
+	if !t.forced && !t.admitted && t.chkCode == 11 {
+		return "(GObserved GasAnte)"
+	}
+	if (t.admitted || t.forced) && !t.ok && t.code == 11 {
+		return "(GObserved GasMsgs)"
+	}
+	return "(GObserved GasOk)"
+}
+
+// btxTerm is the transaction as offered: body, signed sequences, gas input, reported gas, forced.
+func (t *c08Tx) btxTerm(n *c08Net) string {
+	var sq []string
+	for i, s := range t.signers {
+		sq = append(sq, fmt.Sprintf("(%s, %d)", c08N(s), t.sigSeq[i]))
+	}
+	return fmt.Sprintf("(Bt %s %s %s %d %s)", t.term(n, "GasOk"), coqList(sq), t.gasInput(), t.gasUsed, coqBool(t.forced))
 }
 
 func (t *c08Tx) term(n *c08Net, gasOut string) string {
@@ -659,7 +779,7 @@ func (t *c08Tx) term(n *c08Net, gasOut string) string {
 	for _, m := range t.msgs {
 		ms = append(ms, n.tmsgTerm(m))
 	}
-	return fmt.Sprintf("(Tx %s %d %s %s %s %s %s %s)", c08Coins(t.fee), t.gas, c08N(t.payer), gr, coqList(sg), coqList(ms), coqBool(t.sigOK), gasOut)
+	return fmt.Sprintf("(Tx %s %d %s %s %s %s %s %s)", c08Coins(t.fee), t.gas, c08N(t.payer), gr, coqList(sg), coqList(ms), "true", gasOut)
 }
 
 // ---------- generator ----------
@@ -706,19 +826,30 @@ func (g *c08Gen) genAssess(from int) c08Msg {
 	r := g.r
 	m := c08Msg{kind: c08Assess, from: from}
 	amt := []int64{1, 3, 10, 101, 1000, 99999}[r.Intn(6)]
+	conv := c08Denoms[0]
+	if g.cfg != nil {
+		conv = g.cfg.conv
+	}
+	// a denom that is not the conversion denom in force: the keeper's default (the "old" conversion
+	// denom) when governance moved away from it, else another fee denom.  Not convertible: the fee
+	// calculation fails
+	other := c08Denoms[0]
+	if conv == other {
+		other = c08Denoms[1+r.Intn(2)]
+	}
 	switch r.Intn(10) {
 	case 0, 1, 2, 3:
 		m.amount = sdk.NewInt64Coin(msgfeestypes.UsdDenom, amt)
 	case 4:
-		m.amount = sdk.NewInt64Coin(c08Denoms[1], amt) // not convertible: the fee calculation fails
+		m.amount = sdk.NewInt64Coin(other, amt)
 	default:
-		m.amount = sdk.NewInt64Coin(c08Denoms[0], amt)
+		m.amount = sdk.NewInt64Coin(conv, amt)
 	}
 	if g.cfg != nil && g.cfg.shared > 0 && r.Intn(4) != 0 {
 		// the custom fee names the recipient the message-type fees of this configuration name
 		m.recipient = g.cfg.shared
-		if m.amount.Denom == c08Denoms[1] {
-			m.amount = sdk.NewInt64Coin(c08Denoms[0], amt)
+		if m.amount.Denom == other {
+			m.amount = sdk.NewInt64Coin(conv, amt)
 		}
 		switch r.Intn(3) {
 		case 0:
@@ -791,22 +922,66 @@ type c08Plan struct {
 	}
 	feeMode, balMode, grantMode, gasMode, bodyMode string
 	payWork map[string]c08Payment // the open payments if this transaction succeeds
+	expectAnte bool               // forced transactions: the harness expects the ante handler to pass (later signers sign for the next sequence)
 }
 
-func (g *c08Gen) plan(st *c08State) *c08Plan {
+// c08PlanOpts restrict what plan may choose (transactions that share a block are planned one by one
+// against the state at the start of the block).
+type c08PlanOpts struct {
+	payer      int      // > 0: the fee payer
+	granter    int      // > 0: name this fee granter, set no allowance
+	noGrant    bool     // no fee granter
+	noBal      bool     // leave the paying account's balance alone
+	allowPay   bool     // x/exchange payment bodies (the harness tracks open payments: one such tx per block)
+	mayEditCfg bool     // the configuration is about to be written by the harness: plan may adjust it
+	body       []c08Msg // != nil: the transaction's messages
+	bodyMode   string
+	gas        uint64 // > 0: the gas limit
+	feeMode    string // "exactly-base", "exact", "above-all": the declared fee; "" = drawn
+}
+
+func (g *c08Gen) plan(st *c08State, cfg *c08Config, o c08PlanOpts) *c08Plan {
 	r := g.r
-	p := &c08Plan{cfg: c08GenConfig(r)}
+	p := &c08Plan{cfg: cfg}
 	t := &c08Tx{sigOK: true}
 	p.tx = t
 	t.payer = 1 + r.Intn(c08NAcc)
+	if o.payer > 0 {
+		t.payer = o.payer
+	}
 	g.cfg = p.cfg
 	failShare := 8
-	if r.Intn(10) < 3 {
+	if o.body != nil {
+		t.msgs = o.body
+		p.bodyMode = o.bodyMode
+	} else if r.Intn(12) == 0 {
+		// authz MsgExec nested three deep around a send or a custom assessed fee of the payer (or of an
+		// account that did or did not authorize the payer)
+		from := t.payer
+		if r.Intn(3) == 0 {
+			from = g.otherThan(t.payer)
+		}
+		var leaf c08Msg
+		if r.Intn(2) == 0 {
+			leaf = g.genAssess(from)
+		} else {
+			leaf = c08Msg{kind: c08Send, from: from, to: g.otherThan(from), coins: g.sendCoins(st, from, r.Intn(100) < failShare)}
+		}
+		m := c08Msg{kind: c08Exec, from: t.payer, inner: []c08Msg{leaf}}
+		for i := 0; i < 2; i++ {
+			m = c08Msg{kind: c08Exec, from: t.payer, inner: []c08Msg{m}}
+			if r.Intn(3) == 0 {
+				m.inner = append(m.inner, c08Msg{kind: c08Send, from: t.payer, to: g.otherThan(t.payer), coins: g.sendCoins(st, t.payer, false)})
+			}
+		}
+		t.msgs = append(t.msgs, m)
+		p.bodyMode = "exec-depth-3"
+	} else if o.allowPay && r.Intn(10) < 3 {
 		// x/exchange payments: the handler records a flat fee on the fee gas meter after it succeeded
 		// a good share: nothing but the handler's own fee is due beyond the base fee, and the declared
 		// fee is exactly the base fee - the sweep has nothing left and only the final subtraction
 		// in DeductFeesDistributions stands between the payer and an undeclared charge
-		exactBase := r.Intn(100) < 40
+		exactBase := o.mayEditCfg && r.Intn(100) < 40
 		if exactBase {
 			p.cfg.schedule = nil
 			if p.cfg.payCreate.IsZero() {
@@ -925,6 +1100,9 @@ func (g *c08Gen) plan(st *c08State) *c08Plan {
 
 	// gas
 	switch k := r.Intn(100); {
+	case o.gas > 0:
+		t.gas = o.gas
+		p.gasMode = "given"
 	case k < 89:
 		t.gas = c08GasChoices[r.Intn(len(c08GasChoices))]
 		p.gasMode = "ample"
@@ -979,6 +1157,16 @@ func (g *c08Gen) plan(st *c08State) *c08Plan {
 		p.feeMode = "first-denom-only"
 	}
 
+	switch o.feeMode {
+	case "exactly-base":
+		t.fee, p.feeMode = base, "exactly-base"
+	case "exact":
+		t.fee, p.feeMode = reqAll, "exact"
+	case "above-all":
+		// enough in every fee denom for whatever a stale schedule or a stale conversion denom could ask
+		t.fee, p.feeMode = reqAll.Add(sdk.NewInt64Coin(c08Denoms[0], 200_000_000), sdk.NewInt64Coin(c08Denoms[1], 200_000_000), sdk.NewInt64Coin(c08Denoms[2], 200_000_000)), "above-in-every-fee-denom"
+	}
+
 	if p.bodyMode == "exchange-payment-only-handler-fee" {
 		switch k := r.Intn(100); {
 		case k < 70:
@@ -1009,7 +1197,11 @@ func (g *c08Gen) plan(st *c08State) *c08Plan {
 
 	// fee grant
 	src := t.payer
-	if r.Intn(100) < 28 {
+	if o.granter > 0 {
+		t.granter = o.granter
+		src = t.granter
+		p.grantMode = "shared-in-block"
+	} else if !o.noGrant && r.Intn(100) < 28 {
 		t.granter = g.otherThan(t.payer)
 		if r.Intn(25) == 0 {
 			t.granter = t.payer // granter = payer: the grant is not consulted
@@ -1054,7 +1246,7 @@ func (g *c08Gen) plan(st *c08State) *c08Plan {
 
 	// balance of the account that pays
 	p.balMode = "ample"
-	if r.Intn(100) < 30 {
+	if !o.noBal && r.Intn(100) < 30 {
 		d := r.Intn(2)
 		dn := c08Denoms[d]
 		var v sdkmath.Int
@@ -1082,218 +1274,3 @@ func (g *c08Gen) plan(st *c08State) *c08Plan {
 	return p
 }
 
-func TestC08(t *testing.T) {
-	r := newRand("C08")
-	w := NewCaseWriter("C08", "PV.Corr.C08", "check_all", 25)
-	n := c08NewNet(t)
-	g := &c08Gen{r: r, n: n}
-	nHist := scale(10, 500)
-	perHist := scale(15, 20)
-	type desc map[string]any
-
-	ample := [c08NDen]sdkmath.Int{sdkmath.NewInt(1_000_000_000_000_000), sdkmath.NewInt(1_000_000_000), sdkmath.NewInt(1_000_000_000), sdkmath.NewInt(1_000_000_000)}
-	var accts, denoms []string
-	for a := 0; a <= c08NAcc; a++ {
-		accts = append(accts, c08N(a))
-	}
-	for d := 1; d <= c08NDen; d++ {
-		denoms = append(denoms, c08N(d))
-	}
-	var gasUsedMin, gasUsedMax int64
-	ntTx := map[string]struct{}{} // distinct non-trivial transactions (with their configuration)
-
-	for h := 0; h < nHist; h++ {
-		// history start: clean fee allowances, ample balances; the starting state is observed
-		ctx := n.ctx()
-		for i := 1; i <= c08NAcc; i++ {
-			for j := 1; j <= c08NAcc; j++ {
-				if i != j {
-					n.setAllow(ctx, i, j, c08Allow{})
-				}
-			}
-			for d := 0; d < c08NDen; d++ {
-				n.setBal(ctx, i, c08Denoms[d], ample[d])
-			}
-		}
-		st := n.observe(ctx)
-		init := st
-		var steps []string
-		var sdesc []desc
-		touched := map[[2]int]bool{}
-		var pairs [][2]int
-		touch := func(gp [2]int) {
-			if !touched[gp] {
-				touched[gp] = true
-				pairs = append(pairs, gp)
-			}
-		}
-		type pend struct {
-			pre, tx string
-			post    *c08State
-			adm, ok bool
-		}
-		var pends []pend
-		histNontrivial := false
-		for s := 0; s < perHist; s++ {
-			p := g.plan(st)
-			// accounts run dry as the history goes on (sends, earlier balance settings): most of the
-			// time the faucet refills them, so that rejections for lack of funds stay a minority
-			for id := 1; id <= c08NAcc; id++ {
-				for d := 0; d < c08NDen; d++ {
-					planned := false
-					for _, sb := range p.setBal {
-						planned = planned || (sb[0].(int) == id && sb[1].(int) == d)
-					}
-					if !planned && st.bal[id][d].LT(ample[d].QuoRaw(1000)) && r.Intn(6) != 0 {
-						n.setBal(ctx, id, c08Denoms[d], ample[d])
-						steps = append(steps, fmt.Sprintf("HSetBal %s %s %s", c08N(id), c08N(d+1), zInt(ample[d])))
-						pends = append(pends, pend{})
-						w.Count("faucet-refill")
-					}
-				}
-			}
-			// the harness' own state changes for this step, then commit them with the configuration
-			for _, sb := range p.setBal {
-				id, d, v := sb[0].(int), sb[1].(int), sb[2].(sdkmath.Int)
-				// restore the account to ample funds afterwards? no: balances evolve with the history
-				n.setBal(ctx, id, c08Denoms[d], v)
-				steps = append(steps, fmt.Sprintf("HSetBal %s %s %s", c08N(id), c08N(d+1), zInt(v)))
-				pends = append(pends, pend{})
-			}
-			for _, sa := range p.setAllow {
-				n.setAllow(ctx, sa.g, sa.p, sa.a)
-				touch([2]int{sa.g, sa.p})
-				steps = append(steps, fmt.Sprintf("HSetAllow %s %s %s", c08N(sa.g), c08N(sa.p), c08AllowTerm(sa.a)))
-				pends = append(pends, pend{})
-			}
-			n.applyConfig(ctx, p.cfg)
-			cur := n.observe(ctx)
-			bz, err := n.sign(ctx, p.tx, cur.seq)
-			if err != nil {
-				t.Fatalf("sign: %v", err)
-			}
-			n.commit(ctx)
-
-			admitted, chkCode, ok, delCode, gasUsed := n.offer(bz)
-			ctx = n.ctx()
-			post := n.observe(ctx)
-			gasOut := "GasOk"
-			if !admitted && chkCode == 11 {
-				gasOut = "GasAnte"
-			}
-			if admitted && !ok && delCode == 11 {
-				gasOut = "GasMsgs"
-			}
-			// any allowance that exists without having been set in this history must be compared too
-			for i := 1; i <= c08NAcc; i++ {
-				for j := 1; j <= c08NAcc; j++ {
-					if post.allow[i-1][j-1].present {
-						touch([2]int{i, j})
-					}
-				}
-			}
-			if p.tx.granter > 0 && p.tx.granter != p.tx.payer {
-				touch([2]int{p.tx.granter, p.tx.payer})
-			}
-			steps = append(steps, "")
-			pends = append(pends, pend{pre: p.cfg.term(), tx: p.tx.term(n, gasOut), post: post, adm: admitted, ok: ok})
-
-			outcome := "rejected"
-			if admitted {
-				outcome = "failed"
-				if ok {
-					outcome = "ok"
-				}
-				if gasUsedMin == 0 || gasUsed < gasUsedMin {
-					gasUsedMin = gasUsed
-				}
-				if gasUsed > gasUsedMax {
-					gasUsedMax = gasUsed
-				}
-			}
-			w.Count("tx")
-			w.Count("outcome:" + outcome)
-			w.Count("fee:" + p.feeMode + ":" + outcome)
-			w.Count("grant:" + p.grantMode + ":" + outcome)
-			w.Count("balance:" + p.balMode + ":" + outcome)
-			w.Count("gas:" + p.gasMode + ":" + outcome)
-			if gasOut != "GasOk" {
-				w.Count("out-of-gas:" + gasOut)
-			}
-			if !admitted {
-				w.Count(fmt.Sprintf("check-code:%d", chkCode))
-			} else if !ok {
-				w.Count(fmt.Sprintf("deliver-code:%d", delCode))
-			}
-			nRouted := 0
-			hasNested := false
-			for _, m := range p.tx.msgs {
-				rs := n.routedTerms(m, 0)
-				nRouted += len(rs)
-				if len(rs) > 1 {
-					hasNested = true
-				}
-			}
-			w.Count(fmt.Sprintf("routed-messages:%d", nRouted))
-			if hasNested {
-				w.Count("with-nested:" + outcome)
-			}
-			if k := c08SameRecipientSources(p.cfg, p.tx.msgs); k >= 2 {
-				w.Count("same-recipient-from-2+-fee-sources:" + outcome)
-			}
-			w.Count("body:" + p.bodyMode + ":" + outcome)
-			addl := c08Required(p.cfg, p.tx.msgs, true)
-			if !addl.IsZero() {
-				w.Count("with-additional-fee:" + outcome)
-			}
-			if len(addl) > 1 || (len(addl) == 1 && !p.cfg.floor.Amount.IsZero() && addl[0].Denom != p.cfg.floor.Denom) {
-				w.Count("fee-in-two-denoms:" + outcome)
-			}
-			if len(p.tx.signers) > 1 {
-				w.Count("multi-signer:" + outcome)
-			}
-			if admitted && (!addl.IsZero() || !ok || p.tx.granter > 0) {
-				ntTx[p.cfg.term()+p.tx.term(n, gasOut)] = struct{}{}
-				histNontrivial = true
-			}
-			sdesc = append(sdesc, desc{"fee": p.tx.fee.String(), "gas": p.tx.gas, "payer": p.tx.payer, "granter": p.tx.granter,
-				"msgs": len(p.tx.msgs), "routed": nRouted, "fee_mode": p.feeMode, "grant_mode": p.grantMode, "balance_mode": p.balMode,
-				"gas_mode": p.gasMode, "floor": p.cfg.floor.String(), "schedule": len(p.cfg.schedule), "outcome": outcome,
-				"check_code": chkCode, "deliver_code": delCode})
-			if ok && p.payWork != nil {
-				n.payments = p.payWork
-			}
-			st = post
-		}
-		sort.Slice(pairs, func(i, j int) bool {
-			if pairs[i][0] != pairs[j][0] {
-				return pairs[i][0] < pairs[j][0]
-			}
-			return pairs[i][1] < pairs[j][1]
-		})
-		var pt []string
-		for _, gp := range pairs {
-			pt = append(pt, fmt.Sprintf("(%s, %s)", c08N(gp[0]), c08N(gp[1])))
-		}
-		for i := range steps {
-			if steps[i] == "" {
-				pd := pends[i]
-				steps[i] = fmt.Sprintf("HTx %s %s (Ob %s %s %s %s %s)", pd.pre, pd.tx, coqBool(pd.adm), coqBool(pd.ok),
-					pd.post.balTerm(), pd.post.seqTerm(), pd.post.allowTerm(pairs))
-			}
-		}
-		term := fmt.Sprintf("CHist %s %s %s\n    %s\n    %s\n    %s\n    [%s]",
-			coqList(accts), coqList(denoms), coqList(pt), init.balTerm(), init.seqTerm(), init.allowTerm(pairs),
-			strings.Join(steps, ";\n     "))
-		w.Add(term, desc{"history": h, "steps": sdesc})
-		if histNontrivial {
-			w.Nontrivial(term) // a history counts once; the transaction-level number is a separate statistic
-		}
-		w.Count("histories")
-	}
-	w.Stats["distinct_nontrivial_transactions"] = int64(len(ntTx))
-	w.Stats["gas_used_min"] = gasUsedMin
-	w.Stats["gas_used_max"] = gasUsedMax
-	_ = big.NewInt
-	w.Flush(t)
-}
